@@ -48,7 +48,8 @@ Definition hash_unset (p : params) : bool := match p_hash p with HNone => true |
 
 (** Parameters.Validate() == nil *)
 Definition params_valid (p : params) : bool :=
-  negb (p_trusting p =? 0)%Z
+  (0 <? p_trusting p)%Z
+  && (0 <=? p_window p)%Z && (0 <=? p_block p)%Z && (0 <=? p_recency p)%Z
   && negb (hash_unset p && (p_window p =? 0)%Z && (p_from p =? 0))
   && match p_hash p with HBadHex => false | _ => true end.
 
@@ -125,20 +126,35 @@ Definition st_delete_range (st : store) (from to : N) : option store :=
 
 (** * Tail height arithmetic *)
 Inductive tres :=
-| TPanic               (* integer divide by zero *)
+| TPanic               (* integer divide by zero (unreachable since the blockTime <= 0 guards) *)
 | TErr                 (* a store lookup of the scan failed *)
 | TFuel                (* fuel exhausted (excluded by [scan_fuel_enough]) *)
 | TVal (h : N).
 
 (** estimateTailHeight *)
 Definition estimate_tail (trusting block : Z) (headH : N) : tres :=
+  if (block <=? 0)%Z then TVal 1 else
   match div64 trusting block with
   | None => TPanic
   | Some q => let k := u64 q in if headH <=? k then TVal 1 else TVal (headH - k)
   end.
 
-(** the upward scan of findTailHeight; [time_at] is Store.GetByHeight(h).Time().
-    [cur + 1] cannot overflow: cur < storeH. *)
+(** the downward scan of findTailHeight: while the header below [cur] is not
+    older than the window, step down; [time_at] is Store.GetByHeight(h).Time().
+    [cur - 1] cannot underflow: oldH < cur. *)
+Fixpoint scan_down (fuel : nat) (E : Z) (oldH storeH : N) (time_at : N -> option Z) (cur : N) : tres :=
+  if (oldH <? cur) && (cur <=? storeH) then
+    match fuel with
+    | O => TFuel
+    | S f =>
+      match time_at (cur - 1) with
+      | None => TErr
+      | Some t => if (t <? E)%Z then TVal cur else scan_down f E oldH storeH time_at (cur - 1)
+      end
+    end
+  else TVal cur.
+
+(** the upward scan of findTailHeight. [cur + 1] cannot overflow: cur < storeH. *)
 Fixpoint scan (fuel : nat) (E : Z) (oldH storeH : N) (time_at : N -> option Z) (cur : N) : tres :=
   if (oldH <? cur) && (cur <? storeH) then
     match fuel with
@@ -151,31 +167,40 @@ Fixpoint scan (fuel : nat) (E : Z) (oldH storeH : N) (time_at : N -> option Z) (
     end
   else TVal cur.
 
-(** the estimate of findTailHeight: None = panic, Some None = "tail is relevant as is" *)
+(** headersToStore, clamped to the number of headers between the old tail and the head *)
+Definition clamp_count (k oldH headH : N) : N :=
+  if sub64 headH oldH <=? k then sub64 headH oldH else k.
+
+(** the estimate of findTailHeight: None = panic, Some None = "tail is relevant as
+    is, or there is nothing to estimate a new one with" *)
 Definition find_estimate (window block : Z) (oldH : N) (oldT : Z) (headH : N) (headT : Z)
   : option (option N) :=
   let E := (headT + wrapi64 (- window))%Z in
   let D := sat64 (E - oldT) in
-  if (D <=? 0)%Z then Some None
+  if (D <=? 0)%Z || (block <=? 0)%Z || (headH <=? oldH) then Some None
   else if (window <=? D)%Z then
     match div64 window block with
     | None => None
-    | Some q => Some (Some (sub64 headH (u64 q)))
+    | Some q => Some (Some (sub64 headH (clamp_count (u64 q) oldH headH)))
     end
   else
     match div64 D block with
     | None => None
-    | Some q => Some (Some (wrap64 (oldH + u64 q)))
+    | Some q => Some (Some (wrap64 (oldH + clamp_count (u64 q) oldH headH)))
     end.
 
-(** findTailHeight *)
+(** findTailHeight: estimate, walk down, walk up *)
 Definition find_tail (window block : Z) (oldH : N) (oldT : Z) (headH : N) (headT : Z)
            (storeH : N) (time_at : N -> option Z) : tres :=
   match find_estimate window block oldH oldT headH headT with
   | None => TPanic
   | Some None => TVal oldH
   | Some (Some e) =>
-    scan (S (N.to_nat (storeH - e))) (headT + wrapi64 (- window))%Z oldH storeH time_at e
+    let E := (headT + wrapi64 (- window))%Z in
+    match scan_down (S (N.to_nat (e - oldH))) E oldH storeH time_at e with
+    | TVal c => scan (S (N.to_nat (storeH - c))) E oldH storeH time_at c
+    | r => r
+    end
   end.
 
 (** tailHeight; [old] = (height, time) of the store's tail, None for an empty store *)
